@@ -602,9 +602,14 @@ def _set_value_in_attrset(
     if not segments:
         raise ValueError("NPath cannot be empty")
 
-    def _assign_through_identifier(identifier: Identifier) -> bool:
+    def _assign_through_identifier(
+        identifier: Identifier, owner: AttributeSet | None = None
+    ) -> bool:
         """Try to write via identifier resolution contexts instead of overwriting."""
-        scopes = scopes_for_owner(target_set)
+        # The chain of the set that holds the binding: for a nested path that
+        # is the nested set (reached through item access, which hands each
+        # level the chain of its parent), so a `rec` set on the way is seen.
+        scopes = scopes_for_owner(owner if owner is not None else target_set)
         if scopes:
             set_resolution_context(identifier, scopes)
             try:
@@ -674,7 +679,7 @@ def _set_value_in_attrset(
     existing_binding = _find_binding(parent_set, final_key)
     if existing_binding is not None:
         if isinstance(existing_binding.value, Identifier):
-            if _assign_through_identifier(existing_binding.value):
+            if _assign_through_identifier(existing_binding.value, parent_set):
                 return
             target_name = existing_binding.value.name
             if let_bindings:
